@@ -22,13 +22,17 @@ PLAN = {
     "C04": {"mc": ["MC_Lease", "MC_Timing"], "gen": [("Gen_Mixed", 80, 2500, 25, True), ("Gen_Timing", 60, 2000, 30, True), ("Gen_DeadLetter", 40, 1000, 32, True),
                                                      ("Gen_Lease", 100, 3000, 60, False, 100), ("BFS_Blocked", 0, 0, 6, False),
                                                      # one delivery climbing its attempt ladder past saturation of the retry curve
-                                                     ("Gen_Ladder", 24, 600, 46, False, 100)]},
+                                                     ("Gen_Ladder", 24, 600, 46, False, 100),
+                                                     # StreamingPull sessions with a binding byte budget over deliveries with different attempt numbers
+                                                     ("Gen_StreamLease", 120, 3000, 22, False, 1000)]},
     "C05": {"mc": ["MC_Ordered"], "impl": ["MC_ImplSnap"], "impl_thorough": ["MC_ImplSnap_thorough", "MC_ImplSeek"], "gen": [("Gen_Ordered", 240, 6000, 30, True), ("Gen_Mixed", 80, 2000, 25, True),
                                                                                                                             # every short history of keyed publishes / pulls / acks / full rewinds on one ordered subscription
                                                                                                                             ("BFS_Ordered", 0, 0, 8, False)]},
     "C06": {"mc": ["MC_DeadLetter"], "gen": [("Gen_DeadLetter", 240, 6000, 32, True), ("Gen_Mixed", 60, 1500, 25, True), ("BFS_DL", 0, 0, 8, False),
                                              # shared dead-letter targets: fan-in of two sources, self-loop
-                                             ("BFS_DLFan", 0, 0, 11, False)]},
+                                             ("BFS_DLFan", 0, 0, 11, False),
+                                             # the attempt budget changes while a pull waits (blocked-pull mode)
+                                             ("BFS_BlockedDL", 0, 0, 9, False)]},
     "C12": {"mc": ["MC_Names"], "gen": [("Gen_Names", 300, 6000, 32, False),
                                        # every short history of deleting / re-creating one topic name under a surviving subscription
                                        ("BFS_RecreateTopic", 0, 0, 6, False)]},
@@ -185,7 +189,7 @@ def _run(ctx, replay):
                 scen.append({"id": "%s-%d-%d" % (mod, seed, i), "unit_ms": 20000 if plan.get("fault") else unit,
                              "steps": h, "drain": drain, "family": mod, "converge": bool(plan.get("converge")) and not mod.startswith("BFS_"),
                              # every other scenario of the random families runs its pulls on idle subscriptions as BLOCKING pulls
-                             "blocked": mod == "BFS_Blocked" or ((i % 2 == 1) and not mod.startswith("BFS_") and mod not in ("Gen_Lease", "Gen_Ladder"))})
+                             "blocked": mod in ("BFS_Blocked", "BFS_BlockedDL") or ((i % 2 == 1) and not mod.startswith("BFS_") and mod not in ("Gen_Lease", "Gen_Ladder", "Gen_StreamLease"))})
     # (2b) refinement check of the mechanism model against the contract: every design-level
     # counterexample becomes a scenario; only what the REAL code does with it counts
     impl_stats = []
